@@ -5,6 +5,7 @@ from corr.corrlib import CorrSim, Q
 
 ID = 'C01'
 TARGETS = ['SmppVerif.Props.C01']
+THOROUGH_ROUNDS = 6
 RULE = ('histories of plain and segmented (2..5 segments) submits: per-segment SMSC reaction in {accept, reject with '
         'status, generic_nack, silence}, responses at random positions after the segment was stored (including before the '
         'next segment is stored), duplicates, responses of the wrong type, expiry sweeps, references unique or deliberately '
